@@ -909,7 +909,9 @@ impl GlyphDataOffsetArray for Gvar<'_> {
             flags &= 0b11111110;
         }
 
-        let max_new_size = orig_size + offsets.data.len();
+        // The offset array may have been widened (short -> long), so it can be
+        // larger than the one it replaces: account for it separately.
+        let max_new_size = orig_size + offsets.data.len() + offsets.offset_array.len();
 
         // part 1 and 2 - write gvar header and offsets
         let mut serializer = Serializer::new(max_new_size);
